@@ -9,7 +9,7 @@ import (
 
 func init() {
 	register("C03", "sched", &PartDef{
-		Rule:  "rd in {2,3}: all histories of length <=2 (length 3 for LRU(2) at rd=2 in quick; thorough: length <=3 for every plain cache kind x capacity) over {Read(2), Read(all), ReadByte, Seek(b0,0), Seek(b1,0), Seek(b2,0), Seek(b2,1)} with the cache attached up front, plus the same histories with SetCache after the first operation, for cache kinds {LRU,FIFO,Random} (thorough adds the StatsRecorder wrappers) x capacity {1,2} on file [3 1 2]+EOF (thorough adds [2 0 3]); all schedules up to preemption bound 2 with HB state caching, Random's eviction order being an explorer choice; oracle = flat model on every operation (bytes, EOF, LastChunk) + no deadlock, panic, ErrContaminatedCache or goroutine left after Close.",
+		Rule:  "rd in {2,3}: all histories of length <=2 (length 3 for LRU(2) at rd=2 in quick; thorough: length <=3 for every plain cache kind x capacity) over {Read(2), Read(all), ReadByte, Seek(b0,0), Seek(b1,0), Seek(b2,0), Seek(b2,1)} with the cache attached up front, plus the same histories with SetCache after the first operation, for cache kinds {LRU,FIFO,Random} (thorough adds the StatsRecorder wrappers) x capacity {1,2} on file [3 1 2]+EOF (thorough adds [2 0 3]); all schedules up to preemption bound 2 with HB state caching (the length <=2 histories at rd=2 also with a scheduling point after every unlock), Random's eviction order being an explorer choice; oracle = flat model on every operation (bytes, EOF, LastChunk) + no deadlock, panic, ErrContaminatedCache or goroutine left after Close.",
 		Gen:   c03gen,
 		Build: readerBuild,
 	})
@@ -53,6 +53,24 @@ func c03gen(tier string) []Spec {
 					late := append([]rdr.Op{h[0], {Op: "SetCache", Cache: c.kind, Cap: c.cp}}, h[1:]...)
 					specs = append(specs, rspec(rParams{Lens: lens, Marker: true, RD: c.rd, Ops: late}, 2))
 				}
+			}
+		}
+	}
+	// the length <=2 histories again with a scheduling point after every unlock (vsched.PostRelease):
+	// a statement that follows a critical section instead of sitting inside it shows only there
+	prKinds := []string{"LRU"}
+	if tier == "thorough" {
+		prKinds = []string{"LRU", "FIFO", "Random"}
+	}
+	for _, h := range histories(menu, 2) {
+		for _, k := range prKinds {
+			for _, cp := range []int{1, 2} {
+				if tier != "thorough" && cp == 2 {
+					continue
+				}
+				sp := rspec(rParams{Lens: files[0], Marker: true, RD: 2, Cache: k, Cap: cp, Ops: h}, 2)
+				sp.PostRel = true
+				specs = append(specs, sp)
 			}
 		}
 	}
